@@ -127,7 +127,9 @@ func newTokEnv(fl *drv.Flags) *tokEnv {
 	// by the SwapFeeToken handler on the real ABCI path.  The field is unexported,
 	// hence reflect + unsafe; /repo is not touched.
 	e.reg = chain.M{}
-	if in := fl.CfgStr("regin", ""); in != "" {
+	// (not while recording for the replica / genesis checks: the registry is process
+	// state that a replica replaying the recorded inputs would not have)
+	if in := fl.CfgStr("regin", ""); in != "" && !e.record {
 		out := fl.CfgStr("regout", "")
 		rn, rd := fl.CfgInt("regrn", 1), fl.CfgInt("regrd", 1)
 		injectRegistry(&c.K.Token, in, v1.SwapParams{MinUnit: out, Ratio: sdkmath.LegacyNewDec(rn).QuoInt64(rd)})
